@@ -113,7 +113,11 @@ func (its *TransactionDatatype) BeginTransaction(
 	txCtx *TransactionContext,
 	newTxnOp bool,
 ) *TransactionContext {
-	if its.isLocked && its.txCtx == txCtx {
+	// Only a call made from inside a transaction body (it carries that transaction's context,
+	// and its goroutine holds the lock) may skip the lock. A top-level call has no context and
+	// must always take it: comparing its nil context with the fields below, which the lock
+	// holder resets while unlocking, let concurrent callers slip through without the lock.
+	if txCtx != nil && its.isLocked && its.txCtx == txCtx {
 		return nil // called after DoTransaction() succeeds.
 	}
 	vhook.At("tx.begin.before-lock")
@@ -182,9 +186,9 @@ func (its *TransactionDatatype) unlock() {
 		its.txCtx = nil
 		vhook.At("tx.unlock.1")
 		its.success = true
+		its.isLocked = false // before the lock is released: afterwards the next holder owns it
 		its.mutex.Unlock()
 		vhook.At("tx.unlock.2")
-		its.isLocked = false
 	}
 }
 
